@@ -41,21 +41,30 @@ def pstr(text):
     return bytes([len(text) & 0xFF]) + text
 
 
-def build(items, data_offset=0x100, names=None, pad_items=1, fill=0):
-    """an independent resource-fork builder: items = [(id, value bytes)], one type 'STR ' holding them all"""
+def build(items, data_offset=0x100, names=None, pad_items=1, fill=0, tail_items=(), tail_pad=0):
+    """an independent resource-fork builder: items = [(id, value bytes)], one type 'STR ' holding them all;
+    tail_items = [(id, value bytes)]: resources whose length + bytes sit at the very END of the fork (inside the name area, `tail_pad` bytes
+    before the end) -- the reference list may point anywhere"""
     data = b""
     offs = []
     for _, v in items:
         offs.append(len(data))
         data += be32(len(v)) + v
-    n = len(items)
+    n = len(items) + len(tail_items)
     map_off = data_offset + len(data)
     str_off = 30 + 8 + (n + pad_items) * 12
     strings = b"".join(pstr(b"name%d" % k) for k in range(n)) if names is None else names
+    tail_pos = []
+    for _, v in tail_items:
+        tail_pos.append(map_off + str_off + len(strings) - data_offset)
+        strings += be32(len(v)) + v
+    strings += bytes(tail_pad)
     m = bytes([fill]) * 16 + bytes([fill]) * 8 + be16(28) + be16(str_off) + be16(0)
     m += b"STR " + be16(n - 1) + be16(10)
     for k, (rid, _) in enumerate(items):
         m += be16(rid) + be16(0) + be32(offs[k]) + bytes(4)
+    for k, (rid, _) in enumerate(tail_items):
+        m += be16(rid) + be16(0) + be32(tail_pos[k]) + bytes(4)
     m += bytes(12 * pad_items) + strings
     head = be32(data_offset) + be32(map_off) + be32(len(data)) + be32(len(m))
     head += bytes([0xEA]) * (data_offset - 16)
@@ -273,6 +282,12 @@ def value_forks(ctx, quick):
         for txt in (b"2", b"2" * 31, b"2" * 40):
             add("lenbyte-%d-%d" % (lb, len(txt)), [(1000, bytes([lb]) + txt), (1001, pstr(b"8000")), (1002, pstr(b"2"))])
             add("lenbyte-last-%d-%d" % (lb, len(txt)), [(1000, pstr(b"2")), (1001, pstr(b"8000")), (1002, bytes([lb]) + txt)], pad_items=0, names=b"")
+    # a value whose bytes end 0 / 1 / 2 / 3 bytes before the end of the fork (the guards of read_rsrc_char / _int / _str at the last bytes)
+    for pad in (0, 1, 2, 3, 4):
+        for txt in (b"2", b"16", b"1024"):
+            add("tail-%d-%s" % (pad, txt.decode()), [(1000, pstr(b"2")), (1001, pstr(b"8000"))], tail_items=[(1002, pstr(txt))], tail_pad=pad, pad_items=0)
+            add("tail-size-%d-%s" % (pad, txt.decode()), [(1002, pstr(b"2")), (1001, pstr(b"8000"))], tail_items=[(1000, pstr(txt[:1]))], tail_pad=pad)
+        add("tail-lenonly-%d" % pad, [(1000, pstr(b"2")), (1001, pstr(b"8000"))], tail_items=[(1002, b"")], tail_pad=pad, pad_items=0)
     for n_items in (1, 2, 4, 20, 200 if quick else 3000):
         add("many-%d" % n_items, [(2000 + k, pstr(b"%d" % k)) for k in range(n_items)] + std_items())
     add("ch-1024", std_items(ch=b"1024"))
